@@ -254,3 +254,26 @@ Definition read_committed (l : log) (o : Z) : list rec * rd_end :=
       end
     | _ => ([], EndOther)
     end.
+
+(* ---- live readers (a Reader object kept across operations) ----
+   Abstract state: the next offset the reader will deliver. NewReader positions a committed
+   reader that starts beyond the HW (or on an empty log) at hw+1 -- the requested offset is
+   forgotten (reader.go:231-233, 345-360); every other reader at the requested offset. *)
+Record reader := mkReader { rd_unc : bool; rd_next : Z }.
+
+Definition reader_open (l : log) (unc : bool) (o : Z) : option reader :=
+  if unc then
+    match find_segment (l_segs l) o with
+    | None => None                               (* ErrSegmentNotFound *)
+    | Some _ => Some (mkReader true o)
+    end
+  else if (l_hw l <? o) || (oldest l =? -1) then Some (mkReader false (l_hw l + 1))
+  else Some (mkReader false o).
+
+(* ReadMessage until it would block: the records delivered, the end reason, the new state *)
+Definition reader_drain (l : log) (r : reader) : list rec * rd_end * reader :=
+  let rs := if rd_unc r
+            then filter (fun x => rd_next r <=? r_off x) (all_recs l)
+            else filter (fun x => (rd_next r <=? r_off x) && (r_off x <=? l_hw l)) (all_recs l) in
+  let nx := match rev rs with [] => rd_next r | x :: _ => r_off x + 1 end in
+  (rs, if rd_unc r then EndWait else end_of l, mkReader (rd_unc r) nx).
